@@ -58,7 +58,8 @@ PROPS["C03"] = dict(
     design_ref="DESIGN.md 6 C03",
     level_text="Every history of put / overwrite / update / delete / clear / create-index / delete-index over a bounded table with two "
                "global secondary indexes is enumerated by TLC and replayed on both clients; after every step TLC compares Scan and Query "
-               "through every index, and DescribeTable's per-index counts, with the index view DEFINED from the base table.",
+               "through every index, and DescribeTable's per-index counts, with the index view DEFINED from the base table."
+               " Also: typed index sort keys (N, B) with the state observed before and after each write, items not eligible for an index (ill-typed key attribute) created before / refused after the index, index keys that extend one another across separator-like bytes; every observation of an index ends with the read it began with.",
 )
 PROPS["C05"] = dict(
     title="conditional writes are decided on the target item only, atomically",
@@ -87,7 +88,8 @@ PROPS["C08"] = dict(
     level_text="Every class of failing request (validation, key and index-key type mismatch, ill-typed update, malformed condition, unknown "
                "table, unused placeholders, refused condition, batch with an invalid request) is issued in every state of a bounded table with "
                "a typed secondary index; TLC requires each to fail and the complete observation (GetItem of every key, Scan, every index, "
-               "DescribeTable) after it to be that of the unchanged specification state.",
+               "DescribeTable) after it to be that of the unchanged specification state."
+               " Also: batches whose last request is invalid, a later action of a multi-action update failing on a table without indexes, items older than an index, DeleteItem with a ReturnValues the operation does not have; a call that both clients refuse although the specification expected success is judged against the unchanged state.",
 )
 PROPS["C02"] = dict(
     title="Query and Scan return exactly the matching items, in sort-key order",
@@ -98,7 +100,8 @@ PROPS["C02"] = dict(
     design_ref="DESIGN.md 6 C02",
     level_text="Every Query / Scan of a menu (partition x sort-key condition {=,<,<=,>,>=,BETWEEN,begins_with} x filter x direction x "
                "base table / two global secondary indexes) is issued in every reachable content of a bounded hash+range table on both clients; "
-               "TLC judges each response against the declarative result: the matching set exactly once, ordered by the index's sort key, Count = |Items|.",
+               "TLC judges each response against the declarative result: the matching set exactly once, ordered by the index's sort key, Count = |Items|."
+               " Also: partitions whose names extend one another across six separator-like bytes (table and indexes), typed index sort keys, reads with a ProjectionExpression, one key-condition text under several meanings, empty start keys.",
 )
 PROPS["C04"] = dict(
     title="paginating with any Limit equals one unpaginated read",
@@ -211,7 +214,8 @@ PROPS["C16"] = dict(
     level_text="All 573 reserved words (frozen list), in upper and lower case, in 4 (thorough: 12) bare-name positions of conditions and updates; "
                "every subset of placeholder families whose spellings are prefixes of one another against what the expression uses; 10 valid and "
                "17 invalid key-condition shapes on base table and index; BatchWriteItem of 0..27 requests and neither/both requests. TLC decides "
-               "from the bytes / the request which must be rejected and which must not, and judges the answers of interpreter and both clients.",
+               "from the bytes / the request which must be rejected and which must not, and judges the answers of interpreter and both clients."
+               " Also: reserved words at the head of a document path and behind a decided OR / AND, malformed placeholder keys, key conditions on an index without sort key, wrong operand counts, one key-condition text under several meanings, requests with two faults, the 25-request limit over two tables.",
 )
 PROPS["C13"] = dict(
     title="primary keys identify items faithfully and are enforced",
@@ -222,7 +226,8 @@ PROPS["C13"] = dict(
     level_text="Hash+range keys (string and binary) over byte alphabets built to collide under separator-joined encodings, stored at most 2 "
                "(thorough: 3) at a time, every key written with an attribute naming it; Put / Get / Update / Delete(ALL_OLD) / Scan in every "
                "reachable state plus malformed keys on all four operations and updates naming a key attribute; TLC judges identity (the "
-               "specification keys items by their key VALUES), rejection of malformed keys and key immutability from answers and full post-states.",
+               "specification keys items by their key VALUES), rejection of malformed keys and key immutability from answers and full post-states."
+               " Also: number / binary typed keys, pools of binary, string and hash+range keys over hostile bytes (NUL, nibble boundaries, separator, escape), conditional upserts, a key rewrite onto another stored key (every other item must survive a write that went through unexpectedly).",
 )
 PROPS["C10"] = dict(
     title="attribute values survive a write/read round trip unchanged",
@@ -271,7 +276,8 @@ PROPS["C20"] = dict(
                "requests whose texts vary in surrounding / repeated whitespace, are anagrams or different x native interpreter on / off is "
                "enumerated by TLC and replayed; callbacks are instrumented Go closures whose verdict is the opposite of the built-in interpreter's, "
                "so TLC judges from outcome, post-state and the recorded set of callbacks that ran: exact dispatch, no cross-fire, fallback for "
-               "matchers, unsupported-feature error without change for updates.",
+               "matchers, unsupported-feature error without change for updates."
+               " Also: activation before the tables exist, SetInterpreter with another instance, texts that differ in tabs, line breaks and letter case, an updater that deletes an attribute.",
 )
 PROPS["C11"] = dict(
     title="the client is safe for concurrent use and its operations are atomic",
